@@ -27,7 +27,7 @@ RULE = (
     "Non-trivial = >= 2 blocks and group size >= 2. assign_grid enumerates all multisets of <= 6 sizes from {1,63,64,65,128,129,192,1000,4096} x "
     "group sizes 1..4 (exhaustive). buffers: same generator, checks the byte views. Distinct = (sizes, group size)."
 )
-BOUNDS = "<= 40 blocks, sizes <= 4096 bytes (random) ; exact optimum computed for <= 11 blocks; group sizes 1..16"
+BOUNDS = "<= 40 blocks, byte sizes <= 4096 (random) and up to 2^33 on the pure size functions; exact optimum computed for <= 11 blocks; group sizes 1..16"
 ASSUMPTIONS = ["the three methods only read the group-size attribute of self (checked: they run on a stub carrying nothing else)"]
 NONTRIVIAL_FLOOR = 50
 ALIGN = 64
